@@ -25,7 +25,7 @@ ASSUMPTIONS = [
     'an indefinite regimen with final_time=None lists only its first dose (documented)']
 REQUIRED = ['sim', 'table', 'data', 'direct', 'indirect', 'single', 'finite', 'indefinite', 'protocol',
             'ft:before', 'ft:at_dose', 'ft:between', 'ft:none', 'start>0', 'bolus', 'infusion', 'lib_pk',
-            'rerouted', 'rerouted:same_component', 'route:global_state', 'data:undosed_after_dosed']
+            'rerouted', 'rerouted:same_component', 'route:global_state', 'data:undosed_after_dosed', 'index:not_unique']
 
 
 @st.composite
@@ -293,6 +293,13 @@ def check(case):
             for k, r in zip(pos, srt):
                 rows[k] = r
         df = pd.DataFrame(rows)
+        # index labels as they come out of pd.concat([measurements, doses, ...]) without ignore_index: not unique
+        if s['shuffle'] % 3 == 1:
+            df.index = [k % 4 for k in range(len(df))]
+            case.labels.append('index:not_unique')
+        elif s['shuffle'] % 3 == 2:
+            df.index = [0] * len(df)
+            case.labels.append('index:not_unique')
         dur_key = 'Duration'
         if s['with_dur'] == 'nocol':
             df = df.drop(columns=['Duration'])
@@ -534,3 +541,17 @@ def check(case):
                     got_k = sorted((float(a), float(b), float(c)) for a, b, c in dfk[['Time', 'Duration', 'Dose']].values)
                     case.close(np.array(got_k), np.array(sorted(want)), rtol=1e-9,
                                what='regimen of candidate model %d of the averaged model' % (k + 1))
+                # sampled through the averaged model at times given in another order: the table covers the doses up to
+                # the LARGEST requested time
+                t_un = np.array([ft, 0.25 * ft, 0.5 * ft])
+                smp = pam.sample(t_un.copy(), n_samples=2, seed=3, include_regimen=True)
+                case.true('Dose' in smp.columns, 'doses are scheduled up to the final time but the table sampled from the '
+                          'averaged model has no dose column', kind='missing_column')
+                # (the averaged model lists the regimen once for all sampled individuals, without an ID)
+                dose_rows = smp[smp['Dose'].notnull()]
+                got_a = sorted((float(a), float(b), float(c)) for a, b, c in dose_rows[['Time', 'Duration', 'Dose']].values)
+                case.equal(len(got_a), len(want), 'number of dose rows sampled from the averaged model at times %r: listed '
+                           '%r, scheduled up to %r: %r' % (t_un.tolist(), [g[0] for g in got_a], ft,
+                                                           [w[0] for w in sorted(want)]))
+                case.close(np.array(got_a), np.array(sorted(want)), rtol=1e-9,
+                           what='dose rows sampled from the averaged model')
